@@ -249,7 +249,7 @@ class RenderContext:
         """An async item getter for resolving paths."""
 
         async def _get_item(obj: Any, key: Any) -> object:
-            if hasattr(obj, "__getitem_async__"):
+            if hasattr(type(obj), "__getitem_async__"):
                 return await obj.__getitem_async__(key)
             return obj[key]
 
